@@ -555,3 +555,172 @@ func catch(f func()) (p any, panicked bool) {
 	f()
 	return nil, false
 }
+
+// ---- construction routes -------------------------------------------------------
+//
+// The same content can be reached through different constructors and
+// mutators, which leaves the implementation in different internal conditions
+// (spare capacity, element wrappers shared between positions or between
+// lists, typed-slice origin). BuildVariant picks a route per list node from a
+// seed, so a case only has to carry one integer.
+
+func mix(seed, n int) int {
+	x := uint64(seed)*0x9E3779B97F4A7C15 + uint64(n)*0xBF58476D1CE4E5B9
+	x ^= x >> 31
+	x *= 0x94D049BB133111EB
+	x ^= x >> 29
+	return int(x>>33) & 0x7fffffff
+}
+
+// BuildVariant builds the container for v choosing a construction route per
+// node from seed. Route 0 everywhere (seed == 0) equals Build.
+func BuildVariant(v V, seed int) any {
+	n := 0
+	return buildVariant(v, seed, &n)
+}
+
+func scalarEq(a, b V) bool {
+	return a.K != KList && a.K != KObject && EqVBits(a, b)
+}
+
+func buildVariant(v V, seed int, counter *int) any {
+	*counter++
+	id := *counter
+	switch v.K {
+	case KList:
+		elems := make([]any, len(v.L))
+		for i, e := range v.L {
+			elems[i] = buildVariant(e, seed, counter)
+		}
+		route := 0
+		if seed != 0 {
+			route = mix(seed, id) % 8
+		}
+		return listByRoute(v, elems, route, mix(seed, id+7))
+	case KObject:
+		o := at.NewObject()
+		vals := make([]any, len(v.O))
+		for i, p := range v.O {
+			vals[i] = buildVariant(p.V, seed, counter)
+		}
+		if seed != 0 && mix(seed, id)%3 == 0 {
+			m := make(map[string]any, len(v.O))
+			for i, p := range v.O {
+				m[p.K] = vals[i]
+			}
+			return at.NewObjectFrom(m)
+		}
+		for i, p := range v.O {
+			o.Set(p.K, vals[i])
+		}
+		return o
+	}
+	return Build(v)
+}
+
+// listByRoute builds a list holding elems (already built Go values; v gives
+// their kinds) through one of several routes that all yield the same content.
+func listByRoute(v V, elems []any, route, salt int) at.List {
+	n := len(elems)
+	switch route {
+	case 1:
+		return at.NewList(elems...)
+	case 2:
+		return at.NewListFrom(append([]any{}, elems...))
+	case 3:
+		// NewListOf + Replace where the value differs: equal scalars keep sharing one wrapper
+		if n > 0 && v.L[0].K != KList && v.L[0].K != KObject {
+			l := at.NewListOf(elems[0], n)
+			for i := 1; i < n; i++ {
+				if !scalarEq(v.L[i], v.L[0]) {
+					l.Replace(i, elems[i])
+				}
+			}
+			return l
+		}
+	case 4:
+		// Concat of two halves (result shares element wrappers with the temporary halves)
+		h := n / 2
+		return at.NewList(elems[:h]...).Concat(at.NewList(elems[h:]...))
+	case 5:
+		// SubList out of a longer list (junk before and after)
+		long := at.NewList("junk-before")
+		long.Add(elems...)
+		long.Add("junk-after", 0)
+		return long.SubList(1, 1+n+0*salt)
+	case 6:
+		// typed-slice origin for the elements of the majority scalar kind, the others inserted afterwards
+		var k Kind = 255
+		cnt := map[Kind]int{}
+		for _, e := range v.L {
+			cnt[e.K]++
+		}
+		for _, cand := range []Kind{KInt, KString, KFloat, KBool} {
+			if cnt[cand] > 0 && (k == 255 || cnt[cand] > cnt[k]) {
+				k = cand
+			}
+		}
+		if k != 255 {
+			var l at.List
+			switch k {
+			case KInt:
+				s := []int{}
+				for _, e := range v.L {
+					if e.K == k {
+						s = append(s, int(e.I))
+					}
+				}
+				l = at.NewListFrom(s)
+			case KString:
+				s := []string{}
+				for _, e := range v.L {
+					if e.K == k {
+						s = append(s, e.S)
+					}
+				}
+				l = at.NewListFrom(s)
+			case KFloat:
+				s := []float64{}
+				for _, e := range v.L {
+					if e.K == k {
+						s = append(s, e.Float())
+					}
+				}
+				l = at.NewListFrom(s)
+			case KBool:
+				s := []bool{}
+				for _, e := range v.L {
+					if e.K == k {
+						s = append(s, e.B)
+					}
+				}
+				l = at.NewListFrom(s)
+			}
+			for i, e := range v.L {
+				if e.K != k {
+					l.Insert(i, elems[i])
+				}
+			}
+			return l
+		}
+	case 7:
+		// grow one by one past the content, then shrink back (spare capacity), with a Delete in the middle
+		l := at.NewList()
+		for i, e := range elems {
+			l.Add(e)
+			if i == n/2 {
+				l.Add("transient")
+			}
+		}
+		if n > 0 {
+			l.Delete(n/2 + 1)
+		}
+		l.Add("tail").Pop()
+		return l
+	}
+	l := at.NewList()
+	for _, e := range elems {
+		l.Add(e)
+	}
+	return l
+}
